@@ -38,6 +38,8 @@ def add(pid, pkg, quick, thorough, twins=False, **kw):
 q, t = rapid_jobs(tshards=16, tscale=150)
 q["jobs"].append(dict(name="exh", mode="plain", run="^TestExhaustive$", shards=1, timeout=300))
 t["jobs"].append(dict(name="exh", mode="plain", run="^TestExhaustive$", shards=1, timeout=600))
+for _tier in (q, t):
+    _tier["jobs"].append(dict(name="firstops", mode="plain", run="^TestFirstOps$", shards=1, timeout=300))
 add("C20", "c20", q, t, twins=True)
 
 ASSUMPTIONS = {
@@ -70,12 +72,16 @@ add("C15", "c15", q, t, twins=True)
 # ---- C08 AES helpers -----------------------------------------------------------
 q, t = rapid_jobs(tshards=16, tscale=200)
 t["jobs"].append(fuzz_job("FuzzUnpad", 150))
+for _tier in (q, t):
+    _tier["jobs"].append(dict(name="firstops", mode="plain", run="^TestFirstOps$", shards=1, timeout=300))
 add("C08", "c08", q, t, twins=True)
 
 # ---- C09 secret-based encryption ----------------------------------------------
 q, t = rapid_jobs(tshards=16, tscale=40)
 t["jobs"].append(dict(name="openssl", mode="plain", run="^TestOpenSSL$", shards=1, scale=10, timeout=600))
 t["jobs"].append(fuzz_job("FuzzDecrypt", 180))
+for _tier in (q, t):
+    _tier["jobs"].append(dict(name="firstops", mode="plain", run="^TestFirstOps$", shards=1, timeout=300))
 add("C09", "c09", q, t, twins=True)
 ASSUMPTIONS["C09"] = ["the harness' own EVP_BytesToKey(MD5,1)/AES-256-CBC/CTR/GCM reference (written from the OpenSSL definition on top of crypto/*) is correct; it is itself cross-checked against /usr/bin/openssl in the thorough tier when the binary is present"]
 
